@@ -449,7 +449,7 @@ empty @again(const int[] xs, byte b, int n) {
 }
 empty @is_you(int n, const int[] xs, byte tag) {
     calls += 1; int[] loc = [n, calls, 7];
-    all_is_win(calls); writeln(half_up(n + 4)); sleep(calls * 300 - 400); debug(); progress(); sleep(n);
+    all_is_win(calls); writeln(half_up(n + 4)); sleep(calls * 300); debug(); progress(); sleep(n + 1);
     write(tag); write(' '); write(n); write(' '); writeln(xs.length);
     if (n > 0) { @is_you(n - 1, xs, tag); }
     @again(xs, tag, n);
